@@ -31,6 +31,16 @@ Definition r_sub (s : subtotal) : list Z := r_nats (s_add s) ++ r_nats (s_sub s)
 Definition r_dim_subs (d : dim_in) : list Z :=
   r_list r_sub (di_subs d) ++ r_list r_bool (di_diffs d).
 
+(* per VALID subtotal of the dimension: does its dict carry a non-empty kwargs.negative list at
+   all?  (raw, before resolution: with [di_diffs] false this is a subtotal whose negative ids are
+   all stale / missing - a plain subtotal by the property; the harness then puts it first in the
+   queue of the merge oracle and counts it) *)
+Definition di_rawneg (d : dim_in) : list bool :=
+  if di_array d then []
+  else let ds := match di_transform_ins d with Some ds => ds | None => di_view_ins d end in
+       map (fun x => negb (is_nil (negative_terms x))) (filter (valid_subtotal (di_ids d)) ds).
+Definition r_dim_rawneg (d : dim_in) : list Z := r_list r_bool (di_rawneg d).
+
 (* the insertion blocks only (the base block is an input) *)
 Definition r_ins (b : blocks) : list Z := r_mat (b_cols b) ++ r_mat (b_rows b) ++ r_mat (b_inter b).
 
